@@ -212,21 +212,21 @@ func Convert(value any, typ reflect.Type) (any, error) { //nolint: gocyclo
 		case reflect.Array, reflect.Slice:
 			result := reflect.MakeSlice(typ, 0, rv.Len())
 			for i := range rv.Len() {
-				item, err := Convert(rv.Index(i).Interface(), typ.Elem())
+				item, err := convertElement(rv.Index(i).Interface(), typ.Elem())
 				if err != nil {
 					return nil, err
 				}
-				result = reflect.Append(result, reflect.ValueOf(item))
+				result = reflect.Append(result, item)
 			}
 			return result.Interface(), nil
 		case reflect.Map:
 			result := reflect.MakeSlice(typ, 0, rv.Len())
 			for _, key := range SortedMapKeys(rv) {
-				item, err := Convert(rv.MapIndex(key).Interface(), typ.Elem())
+				item, err := convertElement(rv.MapIndex(key).Interface(), typ.Elem())
 				if err != nil {
 					return nil, err
 				}
-				result = reflect.Append(result, reflect.ValueOf(item))
+				result = reflect.Append(result, item)
 			}
 			return result.Interface(), nil
 		}
@@ -241,6 +241,23 @@ func Convert(value any, typ reflect.Type) (any, error) { //nolint: gocyclo
 		}
 	}
 	return nil, conversionError("", value, typ)
+}
+
+// convertElement converts an element of an array, slice or map for a slice of element type et.
+// A nil element (or a Drop or nil pointer that stands for nil) stays nil where et can hold nil.
+func convertElement(value any, et reflect.Type) (reflect.Value, error) {
+	value = ToLiquid(value)
+	if value == nil || isNilPointer(value) {
+		switch et.Kind() {
+		case reflect.Interface, reflect.Ptr, reflect.Map, reflect.Slice, reflect.Chan, reflect.Func:
+			return reflect.Zero(et), nil
+		}
+	}
+	item, err := Convert(value, et)
+	if err != nil {
+		return reflect.Value{}, err
+	}
+	return reflect.ValueOf(item), nil
 }
 
 // MustConvert is like Convert, but panics if conversion fails.
